@@ -114,6 +114,32 @@ def job_random(job):
     return drivers.make_trace(directed, removal, calls, labeling=lab, forks=forks, rng=rng)
 
 
+def sim_stage(chk, rng, modes_wanted, num):
+    """beyond the exhaustive bounds: TLC -simulate behaviours of the model (4 nodes with self-loops, instants 0..8,
+    invariants checked along the way) are replayed into the real classes and validated"""
+    res = tlc.run_mc("MC_core_sim.cfg", "MC_core.tla", workers=16, timeout=3000, simulate="num=%d" % num, depth=25,
+                     seed=chk.seed + 11, tag="sim-%s" % chk.prop)
+    if res.get("violated"):
+        chk.add_mc(res, "simulation of the model, invariants of all core properties")
+        return
+    beh = []
+    for txt in tlc._extract_prints(res["full_output"], "SIM"):
+        v = tlaval.parse(txt)
+        beh.append({"dir": v[1], "rem": v[2], "hist": [_norm_call(c) for c in v[3]]})
+    chk.extra["simulated_behaviours"] = {"config": "MC_core_sim.cfg", "behaviours": len(beh), "depth": 25,
+                                         "tlc_wall_s": res["wall_s"]}
+    known = [1, 2, 3, 4]
+    jobs = []
+    for b in beh:
+        if b["rem"] not in modes_wanted:
+            continue
+        grid = drivers.grid_of(b["hist"])
+        forks = [drivers.rand_add(rng, 4, 8) for _ in range(4)]
+        grid = drivers.grid_of(b["hist"] + forks)
+        jobs.append((rng.randrange(1 << 30), b, forks, rng.choice(LABS), known, grid))
+    chk.run_jobs(job_state, jobs, "sim", chunk=400)
+
+
 def repo_test_traces(chk):
     """code -> spec on realistic usage: the repository's own tests run under the tracer plugin
     (harness/tracer_plugin.py, DYNETX_VERIF=1); every graph they build becomes one trace"""
@@ -179,6 +205,8 @@ def run(prop, tier, seed):
                      rng.choice(LABS)))
     chk.run_jobs(job_random, jobs, "rand", chunk=1500)
     repo_test_traces(chk)
+    if tier == "thorough":
+        sim_stage(chk, rng, modes_wanted, 25)
     chk.extra["bounded_states_replayed"] = n_states
     chk.extra["state_action_pairs_replayed"] = n_edges
     chk.assumptions = [
